@@ -107,32 +107,64 @@ func returnFacts(f *ssa.Function, kind, idx int) []Fact {
 	sumCache[k] = nil // recursion guard
 	var acc []Fact
 	first := true
-	for _, r := range Returns(f) {
-		if idx >= len(r.Results) {
-			continue
-		}
-		v := RetVal(r, idx)
-		sel := false
-		switch kind {
-		case 0:
-			sel = IsNil(v)
-		case 1, 2:
-			if c, ok := Strip(v).(*ssa.Const); ok && c.Value != nil {
-				sel = (c.Value.String() == "true") == (kind == 1)
-			} else {
-				// a non-constant boolean may be either: the return constrains nothing we can rely on
-				sumCache[k] = nil
-				return nil
-			}
-		}
-		if !sel {
-			continue
-		}
-		fs := FactsAt(r)
+	giveUp := false
+	take := func(fs []Fact) {
 		if first {
 			acc, first = fs, false
 		} else {
 			acc = intersectFacts(acc, fs)
+		}
+	}
+	// one returned value at one program point: selected (with the extra fact it implies, if any), not selected, or unknown
+	var one func(v ssa.Value, at ssa.Instruction, d int)
+	one = func(v ssa.Value, at ssa.Instruction, d int) {
+		switch kind {
+		case 0:
+			if IsNil(v) {
+				take(FactsAt(at))
+			}
+			return
+		}
+		want := kind == 1
+		sv := Strip(v)
+		if c, ok := sv.(*ssa.Const); ok && c.Value != nil {
+			if (c.Value.String() == "true") == want {
+				take(FactsAt(at))
+			}
+			return
+		}
+		// `return a == b`: the comparison (its negation) holds where the result is true (false)
+		if cmp, neg, ok := AsCmp(sv); ok {
+			op := cmp.Op
+			if neg != !want {
+				op = NegOp(op)
+			}
+			take(append(FactsAt(at), Fact{op, cmp.X, cmp.Y, nil}))
+			return
+		}
+		// `return a && b` and friends: a phi of constants and comparisons, each judged where it comes from
+		if ph, ok := sv.(*ssa.Phi); ok && d < 3 {
+			for i, e := range ph.Edges {
+				pred := ph.Block().Preds[i]
+				if len(pred.Instrs) == 0 {
+					giveUp = true
+					return
+				}
+				one(e, pred.Instrs[len(pred.Instrs)-1], d+1)
+			}
+			return
+		}
+		// any other boolean may be either: the return constrains nothing we can rely on
+		giveUp = true
+	}
+	for _, r := range Returns(f) {
+		if idx >= len(r.Results) {
+			continue
+		}
+		one(RetVal(r, idx), r, 0)
+		if giveUp {
+			sumCache[k] = nil
+			return nil
 		}
 	}
 	sumCache[k] = acc
@@ -155,6 +187,9 @@ func translate(fs []Fact, hook func(v ssa.Value) (string, bool)) []Fact {
 	}
 	return out
 }
+
+// CalleeFacts: what holds in the caller when call returned a nil error (kind 0), true (1) or false (2) as result idx.
+func CalleeFacts(call *ssa.Call, kind, idx int) []Fact { return calleeFacts(call, kind, idx) }
 
 // calleeFacts translates H's return facts to the caller of call.
 func calleeFacts(call *ssa.Call, kind, idx int) []Fact {
@@ -181,6 +216,9 @@ func calleeFacts(call *ssa.Call, kind, idx int) []Fact {
 		return s, ok
 	})
 }
+
+// PrivateCallers: the call sites of f when f is unexported and every incoming edge is a plain static library call.
+func PrivateCallers(f *ssa.Function) []*ssa.Call { return privateCallers(f) }
 
 // privateCallers: f is unexported, has blocks, and every incoming edge is a plain static call from library code.
 func privateCallers(f *ssa.Function) []*ssa.Call {
